@@ -1,18 +1,25 @@
 //! rt-native: links the REAL wit-bindgen guest runtime natively (hook H1 on) and drives it.
 //! usage: rt-native <engine>      requests on stdin, one answer line per request line
 //!   engine `realloc`  C24  request histories against cabi_realloc / Cleanup / cabi_dealloc
-//!   engine `script`   C18–C23  async scripts against a scripted mock component-model host
+//!   engine `script`   C18–C21  async scripts against a scripted mock component-model host
+//!   engine `exec`     C22–C23  the real export-task executor: several futures / tasks, wakers
+//!   engine `chan`     C19–C20  stream / future operations against a scripted peer
 //! See README.md for the protocols.
 extern crate alloc; // the extracted `cabi_realloc` item says `alloc::alloc::…`
 
 use std::io::{BufRead, Write};
 
 pub mod alloc_check;
+mod chan;
+mod chan_host;
+mod exec;
 mod host;
+mod payload;
 mod realloc;
 mod script;
 mod subtask;
 mod trace;
+mod unit_host;
 
 #[global_allocator]
 static GLOBAL: alloc_check::Checking = alloc_check::Checking;
@@ -44,6 +51,8 @@ fn main() {
     let f: fn(&str) -> String = match engine.as_str() {
         "realloc" => realloc::handle,
         "script" => script::handle,
+        "exec" => exec::handle,
+        "chan" => chan::handle,
         other => panic!("unknown engine {other}"),
     };
     // panics are expected outcomes of some scripts: keep stderr quiet, remember the message
